@@ -52,6 +52,36 @@ theorem C05_fixed_checked (ps : List PK) (pol : Policy) (P : Store → Prop) (hP
   exact stable_checked _ P (hc _ hk) st' _ (propagate_inv ps pol P hP hc fuel _ st st' hp h) hs
     (allFixed_fixedOn hf _) (allFixed_mem hf)
 
+/-- **C05 (all modelled kinds, with store preconditions).** The general form of `C05_contract`:
+static well-formedness `WFs` plus a store invariant that makes the boolean variables boolean and
+implies the kind's store precondition (`modulo`: non-negative dividend, positive divisor, no
+boundary sampling — the recorded findings; every other kind: none).  Covers leq, eq, add, sum,
+linear rows (plain and reified), reified comparisons, boolean kinds, abs, min, max, mul, div,
+modulo, all-equal, between, count, cardinality, element, table, if-then-else, all-different. -/
+theorem C05_contract_inv (k : PK) (hwf : k.WFs) (P : Store → Prop)
+    (hP : ∀ st, P st → BoolStore k.boolVars st) (hS : ∀ st, P st → k.StoreOk st) : PKContract k P :=
+  PK.contract_inv k hwf P hP hS
+
+/-- **C05 (the fixpoint is reached).** Propagation always terminates: more than
+`|agenda| + P · size` steps are never needed (`size` = number of values in the declared domains),
+whatever the pop policy — every event removes a value, the agenda has no duplicates. -/
+theorem C05_propagation_terminates (ps : List PK) (pol : Policy) (P : Store → Prop)
+    (hc : AllContract ps P) (n : Nat) (fuel : Nat) (q : List Nat) (st : Store)
+    (hq : QOK ps.length q) (hne : NonEmpty st) (ht : Tail n st)
+    (hf : q.length + ps.length * sizeN n st < fuel) : propagate ps pol fuel q st ≠ .fuel :=
+  propagate_terminates ps pol P hc n fuel q st hq hne ht hf
+
+/-- **C05 (engine level, all kinds).** Instance of the fixpoint theorem for a whole model under
+the store invariant `StoreInv`. -/
+theorem C05_fixpoint_all_kinds (ps : List PK) (hwf : ∀ k ∈ ps, k.WFs) (pol : Policy) (a : Asg)
+    (ha : ∀ k ∈ ps, PK.holds a k = true) (fuel : Nat) (q : List Nat) (st : Store)
+    (hst : StoreInv ps st) (hm : Mem st a) :
+    match propagate ps pol fuel q st with
+    | .fail => False
+    | .fuel => True
+    | .ok st' => Mem st' a ∧ StoreInv ps st' :=
+  propagate_sound_inv ps hwf pol a ha fuel q st hst hm
+
 /-- findings: the `NotEquals` propagator accepts a fixed violating pair, and a linear row with
 all-zero coefficients accepts anything -/
 theorem C05_neq_noop_counterexample :
